@@ -26,6 +26,10 @@ MUTATORS = {'append', 'extend', 'insert', 'reverse', 'pop', 'sort', 'remove', 'c
             'popitem', 'appendleft', 'popleft'}
 
 
+def _mutable_kind(kind):
+    return (isinstance(kind, tuple) and kind[0] == 'seq') or kind in ('map', 'emap', 'kset')
+
+
 class EngineDefect(Exception):
     "an internal soundness guard of the engine fired: nothing is reported as proved"
 
@@ -1370,9 +1374,11 @@ class Exec:
                             'subscript store in bounds: %s' % ast.unparse(target))
                 self.store(target.value, SVal(k, s.upd(base.t, i, self.lift(val, k[1]).t)), st)
             elif k == 'map':
+                self.check_mutation(target, st)
                 key = self.lift(self.ev(target.slice, st), 'str')
                 self.store(target.value, SVal('map', self.th.m_put(base.t, key.t, self.lift(val, 'V').t)), st)
             elif k == 'emap':
+                self.check_mutation(target, st)
                 key = self.lift(self.ev(target.slice, st), 'str')
                 self.store(target.value, SVal('emap', self.th.em_put(base.t, key.t, self.lift(val, 'ME').t)), st)
             else:
@@ -1463,8 +1469,7 @@ class Exec:
         al.pop(target.id, None)
         for k_, v_ in list(al.items()):
             al[k_] = v_ - {target.id}
-        if isinstance(valnode, ast.Name) and isinstance(val.kind, tuple) and val.kind[0] == 'seq' \
-                and val.kind != EMPTYLIST:
+        if isinstance(valnode, ast.Name) and _mutable_kind(val.kind) and val.kind != EMPTYLIST:
             grp = set(al.get(valnode.id, set())) | {valnode.id, target.id}
             for nme in grp:
                 al[nme] = grp - {nme}
@@ -1482,8 +1487,11 @@ class Exec:
                 raise OutOfSubset('mutation of list %s which is aliased by %s' % (b.id, sorted(al[b.id])))
             if b.id in getattr(self, 'param_names', ()) and not getattr(self, 'inline_of', None):
                 v = st.env.get(b.id)
-                if v is not None and isinstance(v.kind, tuple) and v.kind[0] == 'seq':
-                    raise OutOfSubset('list parameter %s is mutated' % b.id)
+                if v is not None and _mutable_kind(v.kind):
+                    # frame obligation (C13): a function under contract never writes through a list/dict parameter.  It fails by
+                    # construction when such a write exists; the value model stays sound for the rest of the function only if the
+                    # caller does not look at the argument again, so the function is also reported.
+                    self.oblige(st, 'frame', target, False, 'parameter %s is not modified (write at line %d)' % (b.id, getattr(target, 'lineno', 0)))
 
     def st_Assign(self, node, st):
         val = self.ev(node.value, st)
